@@ -1,4 +1,5 @@
 import MdwModel.Driver.C16
+import MdwModel.Driver.C09
 import MdwModel.Model.Records
 import Std.Data.HashMap
 open Mdw.Drv
@@ -15,6 +16,8 @@ structure Stats where
 def dispatch (prop : String) (kv : List (String × String)) : Res :=
   match prop with
   | "C16" => C16.run kv
+  | "C09" => C09.run kv
+  | "C10" => C09.run10 kv
   | "SIZES" =>
     match (get kv "sizes").bind natList with
     | some l => if l == Mdw.Rec.sizeTable then .ok else .mismatch s!"record sizes model={Mdw.Rec.sizeTable} impl={l}"
